@@ -14,6 +14,8 @@ open GlueVerif.C15
 #print axioms w2p_shortcut
 #print axioms w2p_shortcut_partial
 #print axioms inverse_pattern_covered
+#print axioms corr_matrix_exact
+#print axioms dep_scale_invariant
 #print axioms links_eq_direct
 #print axioms link_p2w_eq_direct_partial
 #print axioms identity_coords
